@@ -75,6 +75,54 @@ func registerK8sModels(e *Engine) {
 		return reasonOf(fr, args[0].(iface))
 	}
 
+	// grpc status errors: a code attached to an error value
+	grpcCodes := func(fr *frame) map[*value]uint32 {
+		m, _ := fr.p.sideTable["grpc:codes"].(map[*value]uint32)
+		if m == nil {
+			m = map[*value]uint32{}
+			fr.p.sideTable["grpc:codes"] = m
+		}
+		return m
+	}
+	e.models["google.golang.org/grpc/status.Error"] = func(fr *frame, fn *ssa.Function, args []value) value {
+		err := fr.p.eng.newErrorString("rpc error: " + fr.concreteString(args[1])).(iface)
+		grpcCodes(fr)[err.v.(*value)] = uint32(fr.concreteInt(args[0]))
+		return err
+	}
+	e.models["google.golang.org/grpc/status.FromError"] = func(fr *frame, fn *ssa.Function, args []value) value {
+		err := args[0].(iface)
+		stT := mustDeref(fn.Signature.Results().At(0).Type())
+		cell := zero(stT)
+		if err.t == nil {
+			return tuple{(*value)(nil), true}
+		}
+		if p, ok := err.v.(*value); ok {
+			if c, has := grpcCodes(fr)[p]; has {
+				grpcCodes(fr)[&cell] = c
+				return tuple{&cell, true}
+			}
+		}
+		grpcCodes(fr)[&cell] = 2 // codes.Unknown
+		return tuple{&cell, false}
+	}
+	e.models["(*google.golang.org/grpc/internal/status.Status).Code"] = func(fr *frame, fn *ssa.Function, args []value) value {
+		p := args[0].(*value)
+		if p == nil {
+			return convC(fn.Signature.Results().At(0).Type(), types.Typ[types.Uint64], uint64(0))
+		}
+		return convC(fn.Signature.Results().At(0).Type(), types.Typ[types.Uint64], uint64(grpcCodes(fr)[p]))
+	}
+	// generated protobuf enum String() methods read name tables initialised in package init: only used for logging
+	for _, n := range []string{"(k8s.io/cri-api/pkg/apis/runtime/v1.PodSandboxState).String", "(k8s.io/cri-api/pkg/apis/runtime/v1.ContainerState).String"} {
+		e.models[n] = func(fr *frame, fn *ssa.Function, args []value) value { return opaqueMark + "enum" }
+	}
+	for _, n := range []string{"golang.org/x/net/context.WithTimeout", "context.WithTimeout", "context.WithCancel", "golang.org/x/net/context.WithCancel"} {
+		e.models[n] = func(fr *frame, fn *ssa.Function, args []value) value {
+			cancelSig := fn.Signature.Results().At(1).Type().Underlying().(*types.Signature)
+			return tuple{iface{}, &noopCall{sig: cancelSig}}
+		}
+	}
+	e.models["golang.org/x/net/context.Background"] = func(fr *frame, fn *ssa.Function, args []value) value { return iface{} }
 	// context: opaque, never inspected by the code under analysis
 	e.models["context.TODO"] = func(fr *frame, fn *ssa.Function, args []value) value { return iface{} }
 	e.models["context.Background"] = func(fr *frame, fn *ssa.Function, args []value) value { return iface{} }
